@@ -382,7 +382,10 @@ def check_misc(c):
             okf = okf and np.array_equal(teneva.sample_lhs(np.array(n, dtype=float), 5.0, seed=1), teneva.sample_lhs(n, 5, seed=1))
             okf = okf and np.array_equal(teneva.sample_rand(np.array(n, dtype=float), 4.0, seed=1), teneva.sample_rand(n, 4, seed=1))
             okf = okf and np.array_equal(teneva.sample_rand_poi([0.] * d, [1.] * d, 4.0, seed=1), teneva.sample_rand_poi([0.] * d, [1.] * d, 4, seed=1))
-        res.check(bool(okf), 'float_count', case, 'a float sample count / float shape array gives a different result than the integer one')
+            for X_ in (teneva.sample_lhs(np.array(n, dtype=float), 5.0, seed=1), teneva.sample_rand(np.array(n, dtype=float), 4.0, seed=1),
+                       teneva.sample_rand([float(x) for x in n], 4, seed=1), teneva.sample_tt([float(x) for x in n], 2, seed=1)[0] if d >= 2 else np.zeros(1, dtype=int)):
+                okf = okf and X_.dtype.kind in 'iu'
+        res.check(bool(okf), 'float_count', case, 'a float sample count / float shape gives a different result than the integer one, or a non-integer index array')
     for sd in c['seeds']:
         for m in c['ms']:
             res.ev()
